@@ -179,6 +179,9 @@ func GenImports(r *rng.R, cfg Cfg, skeletonLike bool) []Imp {
 		{"tmpfs", "tmpfs", "/tmp/scratch"},
 		{"rbind", "/run", "/run"},
 		{"bind", cfg.Base + "/host/repos", "/mnt/../mnt/repos2"},
+		// bytes that mean something to a formatter, a shell or a glob but nothing to layercake
+		{"bind", cfg.Base + "/host/100%sure", "/mnt/50%"},
+		{"bind", cfg.Base + "/host/repos", "/mnt/p%2Fq[1]*"},
 	}
 	if skeletonLike {
 		return append([]Imp{}, pool[0], pool[1], pool[2], pool[3], pool[5])
@@ -220,6 +223,9 @@ func GenForest(r *rng.R, cfg Cfg, maxLayers int, healthy bool) []LayerSpec {
 			l.Exports = []Imp{{"symlink", "/var/cache/binpkgs", "$$package_export"}}
 			if r.Chance(1, 2) {
 				l.Exports = append(l.Exports, Imp{"symlink", "/out", "$$file_export"})
+			}
+			if r.Chance(1, 4) {
+				l.Exports = append(l.Exports, Imp{"symlink", "/srv/out%d/100%", "$$file_export"})
 			}
 		}
 		l.HasPackages = r.Chance(1, 2)
@@ -281,6 +287,7 @@ func GenWorld(r *rng.R, maxLayers int, healthy bool) WorldSpec {
 	if r.Chance(1, 5) {
 		ws.HostDirs = ws.HostDirs[:1]
 	}
+	ws.HostDirs = append(ws.HostDirs, cfg.Base+"/host/100%sure")
 	return ws
 }
 
